@@ -65,6 +65,8 @@ def correspondence(ctx):
     D.decay_stream(rng, scases, "check_float_decay Synth", "cumulative_float_synth", streams, viol, samples,
                    "the same check on the synthetic data set (states p q r x, 365.25-day year, SF, branches not summing to one)",
                    shard=8, ds="synth", pre=D.PRE.replace("Model.Default", "Model.Default Model.Synth"))
+    import corr_randds as RD
+    RD.random_dataset_stream(rng, 10 if ctx["tier"] == "thorough" else 2, streams, viol, samples, cum=True, hp=1)
     return {"streams": streams, "violations": viol, "samples": samples}
 
 
